@@ -1343,10 +1343,7 @@ def stage_typed_qualifiers(run):
     for _ in range(n):
         decls = [norm_qualdecl(d) for d in std_decls(rng)]
         scope = rng.choice(['CLASS', 'PROPERTY', 'METHOD', 'PARAMETER'])
-        quals = gen_qualifiers(rng, decls, scope, maxn=5)
-        if not fixed:
-            # the model mirrors the compiler after the fix "explicit NULL qualifier value" (C08-F4)
-            quals = [q for q in quals if q.value is not None]
+        quals = gen_qualifiers(rng, decls, scope, maxn=5)      # explicit NULL values included (C08-F4 fixed)
         if rng.random() < 0.3:
             for q in quals:
                 q.name = recase(rng, q.name)
@@ -1425,7 +1422,6 @@ def stage_typed_decls(run):
     """K for stage 3 of the typed model: classes and instances, both directions"""
     rng = run.rng
     n = 3000 if run.thorough else 450
-    fixed = null_qualifier_fixed()
     cases = []
     for _ in range(n):
         decls = [norm_qualdecl(d) for d in std_decls(rng)]
@@ -1433,11 +1429,6 @@ def stage_typed_decls(run):
         other = gen_class(rng, decls, gen_name(rng, 'R_'))
         cls = gen_class(rng, decls, gen_name(rng, 'C_'), superclass=rng.choice([None, base.classname]),
                         refclasses=[base.classname, other.classname], embed=other.classname)
-        if not fixed:
-            for holder in [cls] + list(cls.properties.values()) + list(cls.methods.values()) + \
-                    [a for m in cls.methods.values() for a in m.parameters.values()]:
-                for qn in [k for k, q in holder.qualifiers.items() if q.value is None]:
-                    del holder.qualifiers[qn]
         ml = rng.choice([40, 60, 80, 80, 100, 120, rng.randint(40, 120)])
         cases.append((decls, [base, other], cls, ml))
     ans = common.run_driver(PROP, [{'op': 'clsmof', 'cls': class_json(cls), 'maxline': ml}
